@@ -18,7 +18,7 @@ EXHAUSTIVE_NOTE = ("lengths 0..2 are enumerated completely on every run. Single-
                    "L in 0..1024, i.e. every single-bit string up to 1024 bytes (4 198 400 strings); quick = L in 0..64, 128, 183, 184, 188, 256, "
                    "512, 1024 (28 752 strings). Additionally, string by string through the model of the code: quick = every bit position for "
                    "lengths 1..24, plus 64 positions per length class up to 1024; thorough = every bit position of every "
-                   "length 1..128 and of the lengths 188, 256, 512, 1024 (so every distance-from-the-end 1..8192 occurs), "
+                   "length 1..64 and of the lengths 188 and 1024 (so every distance-from-the-end 1..8192 occurs), "
                    "first/last/8 random positions for every other length up to 1024, and the all-zero string of every length "
                    "0..1024. The unbounded domain is covered by theorem C13_compute_crc_is_mpeg2.")
 ASSUMPTIONS = ["Go uint32 shifts/xor as written out in Model/Crc.v; encoding/binary.BigEndian.PutUint32 is big-endian"]
@@ -185,7 +185,7 @@ def gen(rng, tier):
         out.append(Case("crc.spec " + hx(v), kind="known-answer", theorem="C13_compute_crc_is_mpeg2"))
     # 3. single-bit and all-zero strings
     if thorough:
-        full = set(range(1, 129)) | {188, 256, 512, 1024}
+        full = set(range(1, 65)) | {188, 1024}
         for L in range(0, 1025):
             crc(bytes(L), "all-zero")
         for L in range(1, 1025):
